@@ -5,6 +5,7 @@ import ProbLogModel.Generated.Semirings
 import ProbLogModel.SymbolicEval
 import ProbLogProofs.Lemmas.SemiringLogVal
 import ProbLogProofs.Lemmas.SymbolicEval
+import ProbLogProofs.Lemmas.SemiringProbLog
 /-!
 # C12 — built-in semirings obey their algebra and documented defaults (property theorems only)
 
@@ -82,34 +83,17 @@ theorem C12_prob_normalize_zero (a : Rat) :
     SemiringProbability.normalize a 0 = .error PyErr.ZeroDivisionError := by
   simp [SemiringProbability.normalize, pyDivRat]; rfl
 
-theorem foldl_plus (ws : List Rat) (s : Rat) :
-    List.foldl (fun s w => SemiringProbability.plus s w) s ws = s + ws.sum := by
-  induction ws generalizing s with
-  | nil => simp
-  | cons w ws ih => rw [List.foldl_cons, ih, List.sum_cons, SemiringProbability.plus, add_assoc]
-
 theorem C12_prob_ad_complement (ws : List Rat) (key : Int) :
-    SemiringProbability.ad_complement ws key = 1 - ws.sum := by
-  simp [SemiringProbability.ad_complement, foldl_plus, SemiringProbability.zero, SemiringProbability.negate]
+    SemiringProbability.ad_complement ws key = 1 - ws.sum :=
+  Semiring.prob_ad_complement ws key
 
 theorem C12_prob_value_in_band (v : Rat) (h0 : -(1/1000000000) ≤ v) (h1 : v ≤ 1 + 1/1000000000) :
-    SemiringProbability.value v = .ok v ∧ SemiringProbability.in_domain v = true := by
-  have h : (decide ((0:Rat) - 1/1000000000 ≤ v) && decide (v ≤ 1 + 1/1000000000)) = true := by
-    simp only [Bool.and_eq_true, decide_eq_true_eq]; constructor <;> linarith
-  constructor
-  · simp only [SemiringProbability.value, h]; rfl
-  · simp only [SemiringProbability.in_domain, h]
+    SemiringProbability.value v = .ok v ∧ SemiringProbability.in_domain v = true :=
+  Semiring.prob_value_in_band v h0 h1
 
 theorem C12_prob_value_outside (v : Rat) (h : v < -(1/1000000000) ∨ 1 + 1/1000000000 < v) :
-    SemiringProbability.value v = .error PyErr.InvalidValue ∧ SemiringProbability.in_domain v = false := by
-  have h : (decide ((0:Rat) - 1/1000000000 ≤ v) && decide (v ≤ 1 + 1/1000000000)) = false := by
-    rw [Bool.and_eq_false_iff]; simp only [decide_eq_false_iff_not, not_le]
-    rcases h with h | h
-    · left; linarith
-    · right; exact h
-  constructor
-  · simp only [SemiringProbability.value, h]; rfl
-  · simp only [SemiringProbability.in_domain, h]
+    SemiringProbability.value v = .error PyErr.InvalidValue ∧ SemiringProbability.in_domain v = false :=
+  Semiring.prob_value_outside v h
 
 example : SemiringProbability.value (3/10) = .ok (3/10) := (C12_prob_value_in_band _ (by norm_num) (by norm_num)).1
 example : SemiringProbability.value (3/2) = .error PyErr.InvalidValue := (C12_prob_value_outside _ (by norm_num)).1
@@ -125,24 +109,8 @@ theorem C12_log_one_zero :
 
 /-- `exp (plus a b) = exp a + exp b`, including `a = −∞` / `b = −∞`. -/
 theorem C12_log_plus (a b : LogVal) (p q : ℝ) (ha : toProb a = some p) (hb : toProb b = some q) :
-    ∃ r, SemiringLogProbability.plus a b = .ok r ∧ toProb r = some (p + q) := by
-  rcases toProb_eq_some ha with ⟨rfl, rfl⟩ | ⟨x, rfl, rfl⟩ <;>
-  rcases toProb_eq_some hb with ⟨rfl, rfl⟩ | ⟨y, rfl, rfl⟩
-  · refine ⟨ninf, ?_, by simp [toProb]⟩
-    simp [SemiringLogProbability.plus, beq]; rfl
-  · refine ⟨fin y, ?_, by simp [toProb]⟩
-    simp [SemiringLogProbability.plus, beq]; rfl
-  · refine ⟨fin x, ?_, by simp [toProb]⟩
-    simp [SemiringLogProbability.plus, beq]; rfl
-  · by_cases h : x < y
-    · refine ⟨fin (y + Real.log (1 + Real.exp (x - y))), ?_, ?_⟩
-      · have : (-1:ℝ) < Real.exp (x - y) := by have := Real.exp_pos (x - y); linarith
-        simp [SemiringLogProbability.plus, beq, h, pyLog1p, sub, exp, log1p, add, this]; rfl
-      · simp [toProb, log_sum_exp]
-    · refine ⟨fin (x + Real.log (1 + Real.exp (y - x))), ?_, ?_⟩
-      · have : (-1:ℝ) < Real.exp (y - x) := by have := Real.exp_pos (y - x); linarith
-        simp [SemiringLogProbability.plus, beq, h, pyLog1p, sub, exp, log1p, add, this]; rfl
-      · simp [toProb, log_sum_exp, add_comm]
+    ∃ r, SemiringLogProbability.plus a b = .ok r ∧ toProb r = some (p + q) :=
+  Semiring.log_plus a b p q ha hb
 
 theorem C12_log_times (a b : LogVal) (p q : ℝ) (ha : toProb a = some p) (hb : toProb b = some q) :
     toProb (SemiringLogProbability.times a b) = some (p * q) := by
@@ -202,81 +170,34 @@ theorem C12_log_negate_guard (a : LogVal) (p : ℝ) (ha : toProb a = some p)
 
 /-- Above `1e-12` (probability > 1): InvalidValue. -/
 theorem C12_log_negate_invalid (a : LogVal) (h : ¬ a ≤ (LogNum.ofRat (1/1000000000000) : LogVal)) :
-    SemiringLogProbability.negate a = .error PyErr.InvalidValue := by
-  simp at h
-  simp [SemiringLogProbability.negate, SemiringLogProbability.in_domain, h]; rfl
-
-theorem lv_unfold (v : ℝ) : SemiringLogProbability.value (fin v) =
-    (if (((-1/1000000000 : ℚ) : ℝ) ≤ v ∧ v < ((1/1000000000 : ℚ) : ℝ)) then .ok ninf
-     else if (((0:ℚ):ℝ) - ((1/1000000000 : ℚ):ℝ) ≤ v ∧ v ≤ ((1:ℚ):ℝ) + ((1/1000000000 : ℚ):ℝ)) then
-       (if 0 < v then .ok (fin (Real.log v)) else .error PyErr.ValueError)
-     else .error PyErr.InvalidValue) := by
-  simp only [SemiringLogProbability.value, SemiringLogProbability.zero, ofRat_def, ninf_def, sub_def, sub, add_def,
-    add, fin_le_fin, fin_lt_fin, Bool.and_eq_true, decide_eq_true_eq, pyLog, log_def, log, Rat.cast_zero]
-  split_ifs <;> rfl
+    SemiringLogProbability.negate a = .error PyErr.InvalidValue :=
+  Semiring.log_negate_invalid a h
 
 /-- `value` on `[1e-9, 1+1e-9]`: the logarithm; the probability semiring accepts the same annotation unchanged. -/
 theorem C12_log_value (v : ℚ) (h0 : 1/1000000000 ≤ v) (h1 : v ≤ 1 + 1/1000000000) :
     SemiringProbability.value v = .ok v ∧
-    ∃ r, SemiringLogProbability.value (LogNum.ofRat v : LogVal) = .ok r ∧ toProb r = some (v : ℝ) := by
-  have hq : (0:ℚ) < v := by linarith
-  have hv : (0:ℝ) < v := by exact_mod_cast hq
-  refine ⟨(C12_prob_value_in_band v (by linarith) h1).1, fin (Real.log v), ?_, by simp [toProb, Real.exp_log hv]⟩
-  have c1 : ¬ ((((-1/1000000000 : ℚ) : ℝ) ≤ v ∧ (v:ℝ) < ((1/1000000000 : ℚ) : ℝ))) := by
-    rintro ⟨_, h⟩; exact absurd (Rat.cast_lt.mp h) (by linarith)
-  have c2 : (((0:ℚ):ℝ) - ((1/1000000000 : ℚ):ℝ) ≤ v ∧ (v:ℝ) ≤ ((1:ℚ):ℝ) + ((1/1000000000 : ℚ):ℝ)) := by
-    rw [← Rat.cast_sub, ← Rat.cast_add]; exact ⟨Rat.cast_le.mpr (by linarith), Rat.cast_le.mpr (by linarith)⟩
-  rw [ofRat_def, lv_unfold, if_neg c1, if_pos c2, if_pos hv]
+    ∃ r, SemiringLogProbability.value (LogNum.ofRat v : LogVal) = .ok r ∧ toProb r = some (v : ℝ) :=
+  Semiring.log_value v h0 h1
 
 /-- The clipped band `-1e-9 ≤ v < 1e-9`: log space returns `zero` (the probability semiring keeps `v`, |v| ≤ 1e-9). -/
 theorem C12_log_value_clip (v : ℚ) (h0 : -(1/1000000000) ≤ v) (h1 : v < 1/1000000000) :
     SemiringProbability.value v = .ok v ∧
-    SemiringLogProbability.value (LogNum.ofRat v : LogVal) = .ok (SemiringLogProbability.zero (α := LogVal)) := by
-  refine ⟨(C12_prob_value_in_band v h0 (by linarith)).1, ?_⟩
-  have c1 : ((((-1/1000000000 : ℚ) : ℝ) ≤ v ∧ (v:ℝ) < ((1/1000000000 : ℚ) : ℝ))) :=
-    ⟨Rat.cast_le.mpr (by linarith), Rat.cast_lt.mpr h1⟩
-  rw [ofRat_def, lv_unfold, if_pos c1]; rfl
+    SemiringLogProbability.value (LogNum.ofRat v : LogVal) = .ok (SemiringLogProbability.zero (α := LogVal)) :=
+  Semiring.log_value_clip v h0 h1
 
 /-- Outside `[-1e-9, 1+1e-9]` both semirings raise InvalidValue. -/
 theorem C12_log_value_invalid (v : ℚ) (h : v < -(1/1000000000) ∨ 1 + 1/1000000000 < v) :
     SemiringProbability.value v = .error PyErr.InvalidValue ∧
-    SemiringLogProbability.value (LogNum.ofRat v : LogVal) = .error PyErr.InvalidValue := by
-  refine ⟨(C12_prob_value_outside v h).1, ?_⟩
-  have c1 : ¬ ((((-1/1000000000 : ℚ) : ℝ) ≤ v ∧ (v:ℝ) < ((1/1000000000 : ℚ) : ℝ))) := by
-    rintro ⟨h1, h2⟩
-    have := Rat.cast_le.mp h1; have := Rat.cast_lt.mp h2
-    rcases h with h | h <;> linarith
-  have c2 : ¬ (((0:ℚ):ℝ) - ((1/1000000000 : ℚ):ℝ) ≤ v ∧ (v:ℝ) ≤ ((1:ℚ):ℝ) + ((1/1000000000 : ℚ):ℝ)) := by
-    rw [← Rat.cast_sub, ← Rat.cast_add]
-    rintro ⟨h1, h2⟩
-    have := Rat.cast_le.mp h1; have := Rat.cast_le.mp h2
-    rcases h with h | h <;> linarith
-  rw [ofRat_def, lv_unfold, if_neg c1, if_neg c2]
-
-theorem foldlM_plus (ws : List LogVal) (ps : List ℝ) (h : List.Forall₂ (fun w p => toProb w = some p) ws ps)
-    (s : LogVal) (p0 : ℝ) (hs : toProb s = some p0) :
-    ∃ r, List.foldlM (fun s w => do pure (← SemiringLogProbability.plus (α := LogVal) s w)) s ws = .ok r ∧
-      toProb r = some (p0 + ps.sum) := by
-  induction h generalizing s p0 with
-  | nil => exact ⟨s, rfl, by simpa using hs⟩
-  | cons hw _ ih =>
-    obtain ⟨r1, e1, t1⟩ := C12_log_plus s _ p0 _ hs hw
-    obtain ⟨r, e, t⟩ := ih r1 _ t1
-    refine ⟨r, ?_, by rw [t, List.sum_cons, add_assoc]⟩
-    simp only [List.foldlM_cons, e1]
-    exact e
+    SemiringLogProbability.value (LogNum.ofRat v : LogVal) = .error PyErr.InvalidValue :=
+  Semiring.log_value_invalid v h
 
 /-- `ad_complement ws` is `negate` of a value denoting `Σ exp wᵢ` (then `C12_log_negate*` apply); the probability
     semiring computes `1 − Σ` (`C12_prob_ad_complement`). -/
 theorem C12_log_ad_complement (ws : List LogVal) (ps : List ℝ) (key : Int)
     (h : List.Forall₂ (fun w p => toProb w = some p) ws ps) :
     ∃ s, toProb s = some ps.sum ∧
-      SemiringLogProbability.ad_complement ws key = SemiringLogProbability.negate s := by
-  obtain ⟨r, e, t⟩ := foldlM_plus ws ps h (SemiringLogProbability.zero (α := LogVal)) 0
-    (by simp [SemiringLogProbability.zero, toProb])
-  refine ⟨r, by simpa using t, ?_⟩
-  simp only [SemiringLogProbability.ad_complement, e]
-  rfl
+      SemiringLogProbability.ad_complement ws key = SemiringLogProbability.negate s :=
+  Semiring.log_ad_complement ws ps key h
 
 theorem C12_log_is_one_one : SemiringLogProbability.is_one (SemiringLogProbability.one (α := LogVal)) = true := by
   simp [SemiringLogProbability.is_one, SemiringLogProbability.one]; norm_num
@@ -296,13 +217,6 @@ example : SemiringLogProbability.value (LogNum.ofRat (3/2) : LogVal) = .error Py
 
 /-! ## Symbolic semiring: `eval` is a homomorphism from the string-building operations -/
 
-/-- `s` belongs to the emitted language and denotes `v`. -/
-def InLang (s : String) (v : Rat) : Prop := ∃ ts, lexChars s.toList = some ts ∧ Der true ts v
-
-/-- A plain decimal numeral (`str` of a probability constant) with value `q`. -/
-def IsNumeral (s : String) (q : Rat) : Prop :=
-  s.toList ≠ [] ∧ (∀ c ∈ s.toList, isNumChar c = true) ∧ numVal s.toList = some q
-
 /-- Membership with value `v` means: the evaluator returns `v`. -/
 theorem C12_sym_eval_of_lang {s : String} {v : Rat} (h : InLang s v) : eval s = some v := by
   obtain ⟨ts, hl, hd⟩ := h
@@ -310,28 +224,6 @@ theorem C12_sym_eval_of_lang {s : String} {v : Rat} (h : InLang s v) : eval s = 
 
 theorem C12_sym_atom {s : String} {q : Rat} (h : IsNumeral s q) : InLang (SemiringSymbolic.value s) q :=
   ⟨[.num q], lex_numeral h.1 h.2.1 h.2.2, Der.ofF (Der.num q)⟩
-
-theorem lex_zero : lexChars "0".toList = some [.num 0] := by
-  rw [show "0".toList = ['0'] from rfl]; decide
-theorem lex_one : lexChars "1".toList = some [.num 1] := by
-  rw [show "1".toList = ['1'] from rfl]; decide
-
-theorem inLang_zero : InLang "0" 0 := ⟨_, lex_zero, Der.ofF (Der.num 0)⟩
-theorem inLang_one : InLang "1" 1 := ⟨_, lex_one, Der.ofF (Der.num 1)⟩
-
-theorem val_of_zero {s : String} {x : Rat} (h : InLang s x) (e : (s == "0") = true) : x = 0 := by
-  have : s = "0" := by simpa using e
-  subst this
-  obtain ⟨ts, hl, hd⟩ := h
-  rw [lex_zero] at hl
-  exact der_single hd (by simpa using hl.symm)
-
-theorem val_of_one {s : String} {x : Rat} (h : InLang s x) (e : (s == "1") = true) : x = 1 := by
-  have : s = "1" := by simpa using e
-  subst this
-  obtain ⟨ts, hl, hd⟩ := h
-  rw [lex_one] at hl
-  exact der_single hd (by simpa using hl.symm)
 
 theorem C12_sym_plus {a b : String} {x y : Rat} (ha : InLang a x) (hb : InLang b y) :
     InLang (SemiringSymbolic.plus a b) (x + y) := by
@@ -464,14 +356,6 @@ theorem C12_sym_normalize_one (a : String) : SemiringSymbolic.normalize a Semiri
   simp [SemiringSymbolic.normalize, SemiringSymbolic.one]
 
 /-- Non-vacuity: the witness of the precedence defect, `normalize "0.2*0.9" "0.2*0.9"`, evaluates to 1. -/
-theorem isNumeral_02 : IsNumeral "0.2" (1/5) := by
-  rw [IsNumeral, show "0.2".toList = ['0', '.', '2'] from rfl]
-  refine ⟨by decide, by decide, ?_⟩
-  simp [numVal, digitsVal] <;> norm_num
-theorem isNumeral_09 : IsNumeral "0.9" (9/10) := by
-  rw [IsNumeral, show "0.9".toList = ['0', '.', '9'] from rfl]
-  refine ⟨by decide, by decide, ?_⟩
-  simp [numVal, digitsVal] <;> norm_num
 example : eval (SymExpr.build (.normalize (.times (.atom "0.2" (1/5)) (.atom "0.9" (9/10)))
     (.times (.atom "0.2" (1/5)) (.atom "0.9" (9/10))))) = some 1 := by
   have h : SymExpr.WF (.normalize (.times (.atom "0.2" (1/5)) (.atom "0.9" (9/10)))
